@@ -92,3 +92,43 @@ func verifLemmaLessTransitive(s txByPriceAndTime, i int, j int, k int) (a bool, 
 //@   ensures len(*s) == old(len(*s)) + 1 && (*s)[len(*s) - 1] == x
 //@   ensures forall k int :: 0 <= k && k < old(len(*s)) ==> (*s)[k] == old((*s)[k])
 //@   modifies *s, (*s)[..]
+
+// ---- the heads form a binary heap under Less (container/heap): no element is less than its
+// parent. container/heap itself is a dependency: its contract is assumed (extern), stated for
+// the concrete element type.
+//@ pure func lessAt(s txByPriceAndTime, i int, j int) bool { return feeOf(s, i) > feeOf(s, j) || (feeOf(s, i) == feeOf(s, j) && observe(Before, s[i].tx.Time, s[j].tx.Time)) }
+//@ pure func isHeap(s txByPriceAndTime) bool { return forall k int :: {s[k]} 1 <= k && k < len(s) ==> !lessAt(s, k, (k - 1) / 2) }
+// heap order everywhere except for the relations of position i with its parent and children;
+// the children of i are not less than the parent of i (so that moving i up or down repairs it)
+//@ pure func heapExcept(s txByPriceAndTime, i int) bool { return (forall k int :: {s[k]} 1 <= k && k < len(s) && k != i && (k - 1) / 2 != i ==> !lessAt(s, k, (k - 1) / 2)) && (forall c int :: {s[c]} 1 <= c && c < len(s) && (c - 1) / 2 == i && i >= 1 ==> !lessAt(s, c, (i - 1) / 2)) }
+
+//@ extern func container/heap.Fix(h *txByPriceAndTime, i int)
+//@   requires 0 <= i && i < len(*h) && heapExcept(*h, i)
+//@   modifies (*h)[..]
+//@   ensures len(*h) == old(len(*h)) && isHeap(*h)
+
+//@ extern func container/heap.Pop(h *txByPriceAndTime) (x interface{})
+//@   requires len(*h) >= 1 && isHeap(*h)
+//@   modifies *h, (*h)[..]
+//@   ensures len(*h) == old(len(*h)) - 1 && isHeap(*h)
+
+//@ extern func container/heap.Init(h *txByPriceAndTime)
+//@   modifies (*h)[..]
+//@   ensures len(*h) == old(len(*h)) && isHeap(*h)
+
+// Every pending transaction handed to the iterator carries its fee caps.
+//@ pure func lazyTxsWf() bool { return forall p *txpool.LazyTransaction :: {p.GasTipCap} p != nil ==> p.GasTipCap != nil && p.GasFeeCap != nil }
+
+// Shift and Pop keep the heads heap-ordered, so that Peek (heads[0]) is a head no other head beats.
+//@ func (t *TransactionsByPriceAndNonce) Shift()
+//@   serves C43
+//@   requires len(t.heads) >= 1 && isHeap(t.heads) && lazyTxsWf()
+//@   requires forall a common.Address, k int :: 0 <= k && k < len(t.txs[a]) ==> t.txs[a][k] != nil
+//@   modifies t.heads, t.heads[..], t.txs[..]
+//@   ensures isHeap(t.heads)
+
+//@ func (t *TransactionsByPriceAndNonce) Pop()
+//@   serves C43
+//@   requires len(t.heads) >= 1 && isHeap(t.heads)
+//@   modifies t.heads, t.heads[..]
+//@   ensures isHeap(t.heads) && len(t.heads) == old(len(t.heads)) - 1
